@@ -9,8 +9,11 @@
   (`Kopf/Extracted/C15.lean`) and `Kopf/Tie/C15.lean` proves them equal to the ones here.
   The model mirrors the code, quirks included:
     * `handler.value is None` on a field handler means "present in old or new";
-    * for *every* ChangingCause (also creation/resume/deletion) the value criterion is tried on
-      `[new, old]`, so `value=ABSENT` holds on every creation (`old` is `None` ⇒ absent);
+    * for a ChangingCause the value criterion is tried on `[new, old]` -- also for resume/deletion
+      handlers when the cause has a real old state (finding C15-F1, the residual) -- except that
+      since /repo bd6cd41 a cause WITHOUT an old state (`cause.old is None`: a creation) is tried on
+      `[new]` only, unless the handler is an update handler (`field_needs_change`: on.update/on.field,
+      for which "absent before, present now" stays a match);
     * field callbacks receive Python `None` for an absent field (since /repo 07968cf; before, the
       private `_UNSET.token`), i.e. an absent field and a present `null` look the same to them,
       label/annotation callbacks receive Python `None` (here: `none : Option String`);
@@ -52,9 +55,11 @@ inductive VCrit (V : Type) where
   | lit (x : Option V)                     -- any other object; `none` = `_UNSET.token` itself
 
 /-- What `match()` reads of a cause. Field access is a function of the path:
-    `body p = dicts.resolve(cause.body, p, absent)` etc.; `cause.old is None` ⇒ `old p = none`. -/
+    `body p = dicts.resolve(cause.body, p, absent)` etc.; `cause.old is None` is `noOld` (the harness
+    and the driver then give `old p = none` for every path: `dicts.resolve(None, p, absent)`). -/
 structure Cause (V : Type) where
   changing : Bool                          -- isinstance(cause, causes.ChangingCause)
+  noOld : Bool                             -- `cause.old is None` (ChangingCause only): no old state at all
   labels : String → Option String          -- body.metadata.labels
   annotations : String → Option String
   body : List String → Option V
@@ -80,9 +85,11 @@ structure Handler (V : Type) where
   value : VCrit V
   old : VCrit V                            -- ChangingHandler only
   new : VCrit V                            -- ChangingHandler only
-  fieldNeedsChange : Bool                  -- truthiness of `field_needs_change`
+  fieldNeedsChange : Bool                  -- truthiness of `field_needs_change` (ChangingHandler only: the
+                                           -- other handler classes have no such attribute)
   requiresFinalizer : Bool                 -- truthiness of `requires_finalizer`
-  kind : C05.Handler                       -- reason / initial / deleted opt-in (ChangingHandler only)
+  kind : C05.Handler                       -- reason / initial / deleted opt-in (ChangingHandler only);
+                                           -- a sub-handler has `reason = none`, `initial = false`
 
 -- ---------------------------------------------------------------------------------------------
 -- _matches_resource / _matches_filter_callback
@@ -209,8 +216,17 @@ inductive Src where
   | new | old | body
   deriving DecidableEq, Repr
 
-/-- `values = [new, old]` for a ChangingCause ("keep new first"), `[val]` otherwise. -/
-def valuesChanging : List Src := [.new, .old]
+/-- atoms of `current_only = cause.old is None and not getattr(handler, 'field_needs_change', False)`
+    (/repo bd6cd41) -/
+structure CurAtoms where
+  oldIsNone : Bool     -- cause.old is None
+  needsChange : Bool   -- getattr(handler, 'field_needs_change', False)
+
+def currentOnlyCore (a : CurAtoms) : Bool := a.oldIsNone && !a.needsChange
+
+/-- `values = [new] if current_only else [new, old]` for a ChangingCause ("keep new first"),
+    `[val]` otherwise. -/
+def valuesChanging (currentOnly : Bool) : List Src := if currentOnly then [.new] else [.new, .old]
 def valuesOther : List Src := [.body]
 
 def Cause.get {V} (c : Cause V) (p : List String) : Src → Option V
@@ -218,8 +234,14 @@ def Cause.get {V} (c : Cause V) (p : List String) : Src → Option V
   | .old => c.old p
   | .body => c.body p
 
+/-- `getattr(handler, 'field_needs_change', False)`: only a ChangingHandler has the attribute -/
+def needsChangeAttr {V} (h : Handler V) : Bool := h.changing && h.fieldNeedsChange
+
+def curAtoms {V} (h : Handler V) (c : Cause V) : CurAtoms :=
+  { oldIsNone := c.noOld, needsChange := needsChangeAttr h }
+
 def values {V} (h : Handler V) (c : Cause V) : List (Option V) :=
-  (if c.changing then valuesChanging else valuesOther).map (c.get (path h))
+  (if c.changing then valuesChanging (currentOnlyCore (curAtoms h c)) else valuesOther).map (c.get (path h))
 
 structure FVAtoms where
   hasField : Bool
@@ -372,8 +394,24 @@ def iterPlain {V} [PyVal V] (hs : List (Handler V)) (c : Cause V) (excluded : Li
     List (Handler V) :=
   hs.filter (selPlain c excluded)
 
-/-- the reason/initial/deleted gate of `ChangingRegistry.iter_handlers` (C05's model) -/
-def gate {V} (h : Handler V) (c : Cause V) : Bool := C05.gate h.kind c.kind
+/-- the chain of `ChangingRegistry.iter_handlers` before `match()`: the reason test and the three
+    skips. It reads C05's records of the handler kind and the cause kind, and -- since /repo 17e5c42 --
+    the handler's `field_needs_change` (a field of C15's `Handler`, so the gate is C15's own; before
+    that commit it was `C05.gate h.kind c.kind`):
+      * a handler bound to a reason runs only for it;
+      * resuming handlers (`initial`) only in initial causes, on marked objects only with `deleted=True`;
+      * FIELD handlers -- reason-less, not resuming, `field_needs_change` (`@kopf.on.field`; also the
+        sub-handlers of `@kopf.on.field`/`@kopf.on.update`, which inherit the flag) -- never on an
+        object marked for deletion.
+    Every other reason-less non-resuming handler -- the SUB-HANDLERS made by `@kopf.subhandler` /
+    `kopf.register` inside `on.create`/`on.delete`/`on.resume` handlers and by `kopf.execute(fns=…)`:
+    `reason=None, initial=None, field_needs_change` falsy -- passes on every cause. (/repo 345a874 had
+    skipped ALL reason-less non-resuming handlers on marked objects: finding C15-F8.) -/
+def gate {V} (h : Handler V) (c : Cause V) : Bool :=
+  (h.kind.reason == none || h.kind.reason == some c.kind.reason) &&
+  !(h.kind.initial && !c.kind.initial) &&
+  !(h.kind.initial && c.kind.marked && !h.kind.deletedOptIn) &&
+  !(h.kind.reason == none && !h.kind.initial && h.fieldNeedsChange && c.kind.marked)
 
 /-- atoms of the per-handler test inside `ChangingRegistry.iter_handlers` -/
 structure ChgAtoms where
@@ -384,24 +422,27 @@ structure ChgAtoms where
   cInitial : Bool      -- cause.initial
   cDeleted : Bool      -- cause.deleted
   hDeleted : Bool      -- handler.deleted
+  needsChange : Bool   -- handler.field_needs_change (/repo 17e5c42)
   matched : Bool       -- match(handler=handler, cause=cause)
 
 /-- the nested ifs of the loop body: excluded → reason → the skip chain (resuming handlers outside
-    initial causes / on deletion without opt-in; field handlers on deletion, /repo 345a874) → match -/
+    initial causes / on deletion without opt-in; FIELD handlers -- `field_needs_change` -- on deletion,
+    /repo 345a874 narrowed by 17e5c42) → match -/
 def selChangingCore (a : ChgAtoms) : Bool :=
   !a.excluded && ((a.reasonNone || a.reasonEq) &&
     (if a.hInitial && !a.cInitial then false
      else if a.hInitial && a.cDeleted && !a.hDeleted then false
-     else if a.reasonNone && !a.hInitial && a.cDeleted then false
+     else if a.reasonNone && !a.hInitial && a.needsChange && a.cDeleted then false
      else if a.matched then true else false))
 
 def chgAtoms {V} [PyVal V] (c : Cause V) (excluded : List String) (h : Handler V) : ChgAtoms :=
   { excluded := excluded.contains h.id, reasonNone := h.kind.reason == none,
     reasonEq := h.kind.reason == some c.kind.reason, hInitial := h.kind.initial, cInitial := c.kind.initial,
-    cDeleted := c.kind.marked, hDeleted := h.kind.deletedOptIn, matched := matchHandler h c }
+    cDeleted := c.kind.marked, hDeleted := h.kind.deletedOptIn, needsChange := h.fieldNeedsChange,
+    matched := matchHandler h c }
 
 /-- the test inside `ChangingRegistry.iter_handlers` (= `selChangingCore ∘ chgAtoms`, see
-    `selChanging_eq_core` in Lemmas: the gate is C05's model) -/
+    `selChanging_eq_core` in Lemmas) -/
 def selChanging {V} [PyVal V] (c : Cause V) (excluded : List String) (h : Handler V) : Bool :=
   !excluded.contains h.id && (gate h c && matchHandler h c)
 
